@@ -12,6 +12,10 @@ namespace vs
 {
 constexpr int kMaxThreads = 12;
 
+// heap shadow
+enum BlockState { B_NONE = 0, B_LIVE = 1, B_FREED = 2 };
+struct BlockInfo { BlockState st; const void *base; size_t size; int owner; };
+
 struct Scenario {
   int nthreads = 0;
   // the last virtual thread becomes runnable only after all others have finished (epilogue)
@@ -35,6 +39,8 @@ struct Scenario {
   std::function<std::string(const void *)> name_of;
   // outcome string of a finished execution (distinct outcomes are counted as a vacuity guard)
   std::function<std::string()> outcome;
+  // property tags for an access to a freed block (default "C12,C17"); "OBS" = observation only
+  std::function<const char *(const void *, const BlockInfo &)> uaf_props;
   // fake std::thread::id handles
   unsigned long handles[kMaxThreads] = {1, 2, 3, 4, 5, 6, 7, 8, 9, 10, 11, 12};
 };
@@ -126,8 +132,6 @@ void Note(const char *s);
 // deterministic arena: controller-context switch
 void ArenaControllerScope(bool on);
 // heap shadow queries
-enum BlockState { B_NONE = 0, B_LIVE = 1, B_FREED = 2 };
-struct BlockInfo { BlockState st; const void *base; size_t size; int owner; };
 BlockInfo BlockOf(const void *p);
 size_t LiveBlocksOfSize(size_t size);
 size_t LiveBlocksTotal();
